@@ -25,6 +25,9 @@ import qucumber.nn_states.neural_state as ns_mod  # noqa: E402
 from qucumber.observables import SigmaZ  # noqa: E402
 
 
+_ORIG_TORCH_SAVE = torch.save
+
+
 def nv_for(cfg):
     m = max(cfg["data"]) if cfg["data"] else 1
     nv = max(2, int(m).bit_length())
@@ -323,7 +326,7 @@ def build_callbacks(cfg, R, plan, nn_state, tmpdir):
             if md == "dict":
                 meta = {"note": "n%d" % i, "k": 7}
             elif md == "callable":
-                meta = (lambda nn, ep: {"epoch_meta": ep, "tag": "t%d" % i})
+                meta = (lambda nn, ep, _i=i: {"epoch_meta": ep, "tag": "t%d" % _i})
             else:
                 meta = None
             slot.append(ModelSaver(d["period"], os.path.join(tmpdir, "sv%d" % i), "m{}.pt",
@@ -334,6 +337,7 @@ def build_callbacks(cfg, R, plan, nn_state, tmpdir):
                 m = re.match(r"Epoch (-?\d+):", msg)
                 R.hist.append(dict(k="LG", cb=_i, ep=int(m.group(1)) if m else None))
                 R.loglines.append(msg)
+                R.logged.setdefault(_i, []).append(int(m.group(1)) if m else None)
             slot.append(Logger(d["period"], logger_fn=logfn))
         elif t == "early":
             evcb = objs[d["ev"] - 1]
@@ -354,17 +358,28 @@ def build_callbacks(cfg, R, plan, nn_state, tmpdir):
 
 def real_run(cfg, plan=(), seed=0, k=1, lr=0.05, numeric_hook=None, time_flag=False,
              nn_state=None, container="tensor", opt_base=torch.optim.SGD, tmpdir=None,
-             sched_args=None, force=None):
+             sched_args=None, force=None, prev=None, metric_names=("m",)):
     """Run the real fit for configuration `cfg` (a dict shaped like Train.tla's cfg
     records; `vals`/`vars` indexed by epoch).  plan = set of (k, ep, b, cb) where
     recording callback cb requests a stop.  Returns the observed projection."""
     torch.manual_seed(seed)
     nv = nv_for(cfg)
-    if nn_state is None:
-        nn_state = make_state(cfg["type"], nv)
-    R = Recorder()
+    if prev is not None:
+        # a second fit() on the same model and the same callback objects
+        nn_state = prev["nn_state"]
+        R = prev["R"]
+        R.hist, R.hash_at, R.numeric = [], [], []
+        R.sched_steps = 0
+        R.epoch_counter = cfg["startEp"] - 1
+        tmpdir = prev["tmpdir"]
+    else:
+        if nn_state is None:
+            nn_state = make_state(cfg["type"], nv)
+        R = Recorder()
+        R.loglines = []
+        R.logged = {}
+        R.saved = {}
     R.start_ep = cfg["startEp"]
-    R.loglines = []
     R.numeric_hook = numeric_hook
     data_rows = [row_bits(c, nv) for c in cfg["data"]]
     if container == "tensor":
@@ -383,18 +398,43 @@ def real_run(cfg, plan=(), seed=0, k=1, lr=0.05, numeric_hook=None, time_flag=Fa
         own_tmp = tempfile.TemporaryDirectory(prefix="verif-train-")
         tmpdir = own_tmp.name
     try:
-        cbs = build_callbacks(cfg, R, set(plan), nn_state, tmpdir)
+        if prev is not None:
+            cbs = prev["objs"]
+            for o in cbs:
+                if isinstance(o, Rec):
+                    o.plan = set(plan)
+        else:
+            cbs = build_callbacks(cfg, R, set(plan), nn_state, tmpdir)
         saves = []
         cls_save = type(nn_state).save
 
-        def save(location, metadata=None):
+        in_save = []
+
+        def note_save(location, metadata, only):
             m = re.search(r"m(initial|-?\d+)\.pt$", str(location))
             name = -1 if (m and m.group(1) == "initial") else (int(m.group(1)) if m else None)
-            cbi = int(re.search(r"sv(\d+)", str(location)).group(1))
+            cbi = int(re.search(r"[/\\]sv(\d+)[/\\]m[^/\\]*$", str(location)).group(1))
             R.hist.append(dict(k="SV", cb=cbi, name=name, pv=R.opt_steps))
-            saves.append(dict(cb=cbi, name=name, path=str(location), hash=param_hash(nn_state)))
-            return cls_save(nn_state, location, metadata)
+            saves.append(dict(cb=cbi, name=name, path=str(location), hash=param_hash(nn_state),
+                              meta=metadata, pv=R.opt_steps, only=only))
+            R.saved.setdefault(cbi, []).append(name)
+
+        def save(location, metadata=None):
+            note_save(location, metadata, False)
+            in_save.append(1)
+            try:
+                return cls_save(nn_state, location, metadata)
+            finally:
+                in_save.pop()
         nn_state.__dict__["save"] = save
+        orig_torch_save = _ORIG_TORCH_SAVE
+
+        def torch_save(obj, f, *a, **k):
+            # ModelSaver(metadata_only=True) writes with torch.save directly
+            if not in_save and isinstance(f, (str, os.PathLike)) and re.search(r"[/\\]sv(\d+)[/\\]m[^/\\]*$", str(f)):
+                note_save(f, obj, True)
+            return orig_torch_save(obj, f, *a, **k)
+        torch.save = torch_save
         if cfg["entryStop"]:
             nn_state.stop_training = True
         h0 = param_hash(nn_state)
@@ -416,6 +456,7 @@ def real_run(cfg, plan=(), seed=0, k=1, lr=0.05, numeric_hook=None, time_flag=Fa
             except Exception as ex:     # reported by the caller, never swallowed silently
                 err = ex
         nn_state.__dict__.pop("save", None)
+        torch.save = orig_torch_save
         # final projection
         cbstate = []
         for d, o in zip(cfg["cbs"], cbs):
@@ -425,9 +466,9 @@ def real_run(cfg, plan=(), seed=0, k=1, lr=0.05, numeric_hook=None, time_flag=Fa
                 else:
                     cbstate.append([[int(e), v["SigmaZ"]["mean"], v["SigmaZ"]["variance"]] for e, v in o.past_values])
             elif d["t"] == "saver":
-                cbstate.append([[s["name"], None] for s in saves if s["cb"] == len(cbstate) + 1])
+                cbstate.append([[nm, None] for nm in R.saved.get(len(cbstate) + 1, [])])
             elif d["t"] == "logger":
-                cbstate.append([e["ep"] for e in R.hist if e["k"] == "LG" and e["cb"] == len(cbstate) + 1])
+                cbstate.append(list(R.logged.get(len(cbstate) + 1, [])))
             elif d["t"] == "early":
                 cbstate.append([] if o.last_epoch is None else [int(o.last_epoch)])
             else:
@@ -445,11 +486,14 @@ def real_run(cfg, plan=(), seed=0, k=1, lr=0.05, numeric_hook=None, time_flag=Fa
                    data_same=same and repr(data_rows) == data_before,
                    bases_same=(bases is None or bool((bases == bases_before).all())),
                    nn_state=nn_state, numeric=R.numeric, lr_after=R.lr_after, stdout=out.getvalue(),
-                   loglines=R.loglines, tmpdir=tmpdir, nv=nv)
+                   loglines=R.loglines, tmpdir=tmpdir, nv=nv, R=R)
+        if prev is not None and "_tmp" in prev:
+            res["_tmp"] = prev["_tmp"]
         if own_tmp is not None:
             res["_tmp"] = own_tmp      # keeps the directory alive until the caller drops the result
         return res
     except Exception:
+        torch.save = _ORIG_TORCH_SAVE
         if own_tmp is not None:
             own_tmp.cleanup()
         raise
